@@ -21,8 +21,8 @@ TOLERANCES = {"coord_rel_to_pitch": 1e-9}
 EXHAUSTIVE = {"quick": True, "thorough": True}
 EXHAUSTIVE_PART = "all cells within N rings (quick 14, thorough 50) x both orientations x all k in [-13,13]; 4 cartesian quarter variants"
 FLOORS = {
-    "quick": {"hex.sym": 1000, "hex.rot": 10000, "cart.sym": 1000, "block.rotate": 150, "assem.rotate": 60, "hex.rot.cellnumber": 3000},
-    "thorough": {"hex.sym": 10000, "hex.rot": 100000, "cart.sym": 10000, "block.rotate": 3000, "assem.rotate": 1000, "hex.rot.cellnumber": 30000},
+    "quick": {"hex.sym": 500, "hex.rot": 10000, "cart.sym": 1000, "block.rotate": 150, "assem.rotate": 60, "hex.rot.cellnumber": 3000},
+    "thorough": {"hex.sym": 7000, "hex.rot": 100000, "cart.sym": 10000, "block.rotate": 3000, "assem.rotate": 1000, "hex.rot.cellnumber": 30000},
 }
 
 
